@@ -246,51 +246,60 @@ func c05Gadget(resp *drv.Response) error {
 			}
 		}
 	}
-	for _, gc := range cases {
-		for _, hint := range []string{"MulAddHint", "ReduceHint", "SplitLimbsHint", "InverseHint"} {
-			strats := map[string][]string{"MulAddHint": {"k1", "q-1", "q+1", "solve"}, "ReduceHint": {"k1", "k2", "q-1", "q+1", "solve"},
-				"SplitLimbsHint": {"hi-1", "hi+1", "solve-hi"}, "InverseHint": {"inv+p", "inv+1", "zero"}}[hint]
-			for occ := 0; occ < 3; occ++ {
-				for _, st := range strats {
-					seen, applied, trivial := 0, false, false
-					var sub []*big.Int
-					cfg := &engine.Config{Mode: engine.Native, Permissive: true}
-					cfg.Strategy = func(h *engine.HintCall) []*big.Int {
-						if h.Name != hint {
-							return nil
+	for _, plainPass := range []bool{false, true} {
+		for _, gc := range cases {
+			for _, hint := range []string{"MulAddHint", "ReduceHint", "SplitLimbsHint", "InverseHint"} {
+				if plainPass && hint == "SplitLimbsHint" {
+					continue
+				}
+				strats := map[string][]string{"MulAddHint": {"k1", "q-1", "q+1", "solve"}, "ReduceHint": {"k1", "k2", "q-1", "q+1", "solve"},
+					"SplitLimbsHint": {"hi-1", "hi+1", "solve-hi"}, "InverseHint": {"inv+p", "inv+1", "zero"}}[hint]
+				for occ := 0; occ < 3; occ++ {
+					for _, st := range strats {
+						seen, applied, trivial := 0, false, false
+						var sub []*big.Int
+						cfg := &engine.Config{Mode: engine.Native, Permissive: true}
+						if plainPass {
+							// the bit-decomposition mechanism, with the digits a prover supplies for a value that does not fit its width
+							cfg = &engine.Config{Mode: engine.Plain, Permissive: true, PermissiveFlavor: 2}
 						}
-						seen++
-						if seen-1 != occ {
-							return nil
-						}
-						applied = true
-						out := hintStrategy(st, h)
-						if out == nil {
-							trivial = true
-							return nil
-						}
-						same := h.Honest != nil
-						for i := range out {
-							if same && new(big.Int).Mod(out[i], bigR).Cmp(h.Honest[i]) != 0 {
-								same = false
+						cfg.Strategy = func(h *engine.HintCall) []*big.Int {
+							if h.Name != hint {
+								return nil
 							}
+							seen++
+							if seen-1 != occ {
+								return nil
+							}
+							applied = true
+							out := hintStrategy(st, h)
+							if out == nil {
+								trivial = true
+								return nil
+							}
+							same := h.Honest != nil
+							for i := range out {
+								if same && new(big.Int).Mod(out[i], bigR).Cmp(h.Honest[i]) != 0 {
+									same = false
+								}
+							}
+							trivial = same
+							sub = out
+							return out
 						}
-						trivial = same
-						sub = out
-						return out
-					}
-					_, err := runGadget(cfg, gc.g, gc.in, nil)
-					if !applied {
-						break
-					}
-					key := fmt.Sprintf("gadget/%s/%v/%s#%d/%s", gc.g.Kind, strsOf(gc.in), hint, occ, st)
-					resp.Count(key, trivial)
-					if !trivial && err == nil {
-						resp.Violate(fmt.Sprintf("c05/gadget/accepted gadget=%s hint=%s strat=%s", gc.g.Kind, hint, st),
-							fmt.Sprintf("%s%v: substituting %v at occurrence %d of %s satisfies all constraints of the gadget (a second result is accepted)", gc.g.Kind, strsOf(gc.in), strsOf(sub), occ, hint), map[string]any{"gadget": gc.g.Kind, "in": strsOf(gc.in), "hint": hint, "occ": occ, "strat": st})
-					}
-					if len(resp.Samples) < 8 && !trivial {
-						resp.Sample(map[string]any{"gadget": gc.g.Kind, "in": strsOf(gc.in), "hint": hint, "occ": occ, "strat": st, "outcome": hc.Outcome(err)})
+						_, err := runGadget(cfg, gc.g, gc.in, nil)
+						if !applied {
+							break
+						}
+						key := fmt.Sprintf("gadget/%v/%s/%v/%s#%d/%s", plainPass, gc.g.Kind, strsOf(gc.in), hint, occ, st)
+						resp.Count(key, trivial)
+						if !trivial && err == nil {
+							resp.Violate(fmt.Sprintf("c05/gadget/accepted gadget=%s hint=%s strat=%s", gc.g.Kind, hint, st),
+								fmt.Sprintf("%s%v: substituting %v at occurrence %d of %s satisfies all constraints of the gadget (a second result is accepted)", gc.g.Kind, strsOf(gc.in), strsOf(sub), occ, hint), map[string]any{"gadget": gc.g.Kind, "in": strsOf(gc.in), "hint": hint, "occ": occ, "strat": st})
+						}
+						if len(resp.Samples) < 8 && !trivial {
+							resp.Sample(map[string]any{"gadget": gc.g.Kind, "in": strsOf(gc.in), "hint": hint, "occ": occ, "strat": st, "outcome": hc.Outcome(err)})
+						}
 					}
 				}
 			}
